@@ -4,6 +4,28 @@ import json, os
 V = os.path.dirname(os.path.dirname(os.path.abspath(__file__)))
 ALL = ["C%02d" % i for i in range(1, 19)]
 
+# what was added to each check while independent seeded changes were evaluated (DESIGN 15.7): appended to the check's text
+EXTRA = {
+ "C01": " Also run: real writer/reader threads under the deterministic scheduler (a writer that sleeps and is woken again), judged with this property's rules; abort-then-unmap (the source's idiom for an empty frame) as an operation.",
+ "C02": " Also run: real writer/reader threads under the deterministic scheduler (a writer that sleeps and is woken again), judged with this property's rules.",
+ "C03": " On DRIFT (the code no longer follows ChannelConc step by step) the sequential exploration escalates at once to capacities 6 and 7, where a write can exceed a whole earlier lap.",
+ "C04": " Families added: fullring (the consumer lags exactly one lap when the acquisition ends; software-triggered camera + scheduler exclusion window), exactly-filled rings, all eight sample types, type / shape changes between acquisitions, empty frame calls, write delay, the same scenario on stream 1 with stream 0 unconfigured; Pipeline.tla models the write delay and recorded executions with a delay are checked to be its behaviours.",
+ "C05": " Also: sample-type changes at unchanged dimensions between acquisitions, cameras whose per-frame shape differs from get_shape at the same byte size, averaging family.",
+ "C06": " Also: averaging while monitoring, polls while nothing runs (any stream), two streams half of the time, a region held across abort and released in part afterwards.",
+ "C07": " Also: stop from a second thread, the scenario on stream 1 only, the client programs of the lifecycle family (stop/abort twice, before any start, after the acquisition finished by itself) judged with this property's rules, partial release of a region held across stop/abort.",
+ "C08": " Also: the read-only API calls (shape, configuration read-back, metadata, backlog) with device-use events, cameras that reject their settings (while not running), unopenable devices.",
+ "C09": " Also: get_shape failures, empty frame calls, the scenario on stream 1 only.",
+ "C10": " Also: another window size between acquisitions, all integer sample types incl. u10/u12/u14.",
+ "C11": " Also: a driver call with a pointer that is none of the driver's devices (CallOnUnknownDevice); a crash of the wrappers under a HAL call is a verdict.",
+ "C12": " Also: a malformed pattern repeated right after a successful selection on the same device manager; a pattern the regex library itself refuses to compile must give an error (MalformedAccepted); refusals are confirmed together with the calls that preceded them.",
+ "C14": " Also: storage_set on a running device (accepted / rejected), path names that extend or are proper prefixes of the previous one, the file a start creates must be the configured one whatever the URI spelling (OpenWrongPath).",
+ "C15": " Also: one acquisition beyond 4 GiB (multi-GiB all-zero frames written sparsely by the OS seam, positions reported in 8-byte units), a sweep over every metadata length 0..419 (thorough 0..4199), storage_set on a running device.",
+ "C16": " Also: storage_set on a running device (accepted / rejected: finding F10), OpenWrongPath.",
+ "C17": " Also: the concurrent camera (real streamer thread under the deterministic scheduler) re-configured in shape / sample type while it runs and a frame call may be pending: nothing is written past the image reported with the frame and it is filled to its end.",
+ "C18": " Also: sets that keep the trigger setting while running, shape changes while running.",
+}
+
+
 CHECKS = {
  "C01": dict(
     category="model_checking", design_ref="DESIGN.md section 6 (C01), section 15",
@@ -110,7 +132,7 @@ def main():
             "evidence_file": "/verif/evidence/%s.json" % pid,
             "replay_cmd_template": "./check %s --replay {path}" % pid,
             "engine": "tlc",
-            "level_claimed": {"category": c["category"], "text": c["text"], "design_ref": c["design_ref"]},
+            "level_claimed": {"category": c["category"], "text": c["text"] + EXTRA.get(pid, ""), "design_ref": c["design_ref"]},
             "level_note": c["note"],
             "technique": c["technique"],
         })
